@@ -357,6 +357,23 @@ def run_dispatch(chk, rng, work, quick):
         # and in descending order on one packet (deepest first)
         script2 = KFN + "@ true { puts(%s); }" % ", ".join("k($%d)" % n for n in range(10, 0, -1))
         jobs.append(("descending-" + name, [fr], script2, ["".join("O" if n <= depth[name] else "N" for n in range(10, 0, -1))]))
+    # array-valued properties are fresh values (changing what was returned does not change the packet or later reads), and
+    # reading named layers that contradict the EtherType / protocol (result unspecified, ignored) does not disturb $n
+    bigt = pkt.tcp(1234, 80, bytes((i * 11 + 3) & 0xFF for i in range(300)), seq=77, ack=88)
+    bigu = pkt.udp(53, 5353, bytes((i * 5 + 1) & 0xFF for i in range(400)))
+    for name, fr, lay, plen, first in (("eth>ipv4>tcp-300", ip4(6, bigt), 3, 300, 3), ("eth>ipv4>udp-400", ip4(17, bigu), 3, 400, 1), ("eth>ipv4>tcp-4", ip4(6, t), 3, 4, 100),
+                                      ("eth>ipv6>udp-400", ip6(17, bigu), 3, 400, 1)):
+        script = ("@ true { let a = ($%d).payload; let n0 = len(a); let f0 = a[0]; let l0 = a[n0 - 1]; a[0] = 999; push(a, 5); a[n0 - 1] = 998; let b = ($%d).payload; "
+                  "puts(n0, \" \", len(b), \" \", b[0] == f0, \" \", b[len(b) - 1] == l0, \" \", f0 == byte(%d), \" \", len(($0).payload) == PL); "
+                  "let w = ($0).payload; w[0] = 1000; puts(($0).payload[0] != 1000, \" \", len(($%d).payload)); }" % (lay, lay, first, lay))
+        jobs.append(("fresh-payload-" + name, [fr], script, ["%d %d true true true true" % (plen, plen), "true %d" % plen]))
+    for name, fr, _, _ in supported:
+        if name not in depth:
+            continue
+        script = KFN + ("@ true { puts(%s); ($1).ipv4; ($1).ipv6; ($1).vlan; ($1).ipv6; ($1).ipv4; puts(%s); }" % (
+            ", ".join("k($%d)" % n for n in range(1, 7)), ", ".join("k($%d)" % n for n in range(1, 7))))
+        line = "".join("O" if n <= depth[name] else "N" for n in range(1, 7))
+        jobs.append(("contradicting-names-" + name, [fr], script, [line, line]))
     # truncated layers are error objects, deeper $n stay error/null but never raise
     full = ip4(6, t)
     cuts = [(c, full[:c]) for c in range(0, len(full))]
